@@ -482,6 +482,14 @@ def ite_value(c, a, b_thunk):
     b = b_thunk() if callable(b_thunk) else b_thunk
     if a is b:
         return a
+
+    def one(v):
+        # a size-1 array next to a scalar: use its single element
+        if isinstance(v, SArr) and all(isinstance(e, int) and e == 1 for e in v.shape):
+            return wrap(v.get((0,) * v.ndim))
+        return v
+    if (isinstance(a, SArr) and is_scalar(b)) or (isinstance(b, SArr) and is_scalar(a)):
+        a, b = one(a), one(b)
     if is_scalar(a) and is_scalar(b):
         return wrap(T.ite(c, term_of(a), term_of(b)))
     if isinstance(a, SArr) and isinstance(b, SArr) and len(a.shape) == len(b.shape):
